@@ -158,6 +158,22 @@ func c02Corpus() map[string]string {
 		add(fmt.Sprintf("x = [%s, %s]", l, l))
 		add(fmt.Sprintf("return %s", l))
 	}
+	// every ordered pair of statement forms on consecutive lines (what ends one statement meets what starts the next)
+	stmts := []string{"a", "a = 1", "a = [1, 2, 3]", "m = {1: 2}", "[4]", "{5: 6}", "(a + b)", "-a", "!a", "f(1)", "a[0]", "a.b", "x++", "--x", "if a { 1 }", "if a { 1 } else { [2] }",
+		"func f() { 1 }", "() => 1", "x => [x]", "\"s\"", "`r`", "1", "2.5", "true", "nil", "return a", "for a { break }", "f = func() { [1] }", "b = a[1:]", "println(\"x\")", "a // c", "/* c */ a"}
+	for _, s1 := range stmts {
+		for _, s2 := range stmts {
+			if s1 == "return a" {
+				continue // nothing follows a return in the same block
+			}
+			add(s1 + "\n" + s2)
+		}
+	}
+	for _, s1 := range stmts {
+		for _, s2 := range stmts {
+			add("func g() {\n" + s1 + "\n" + s2 + "\n}")
+		}
+	}
 	for _, s := range []string{
 		"f(a, b)(c)[d].e", "x = [1, 2, [3, 4]][2][0]", "m = {\"a\": 1, 2: [3], \"k\": {\"z\": nil}}", "g = (a, b) => a + b", "h = a => b => a * b",
 		"func f(a, ..) { return a }", "if a { b } else if c { d } else { e }", "for i = 0:10 { if i % 2 == 0 { continue }; println(i) }",
@@ -233,6 +249,9 @@ func TestVerifBoundedRoundTrip(t *testing.T) {
 				if name == "generated#002" || strings.HasSuffix(name, "examples/bezier_plot.gr") {
 					id = "plus-chain-regrouped" // x + (y + z): recorded finding, witnesses a + (b + c) and points + (40 + rand(350))
 				}
+				if c02PrefixStatement(src) {
+					id = "prefix-operator-statement"
+				}
 				fail(id, fmt.Sprintf("%s: %s-mode output parses to a different program: source %q prints as %q; structure %q became %q", name, mode, c02cut(src), c02cut(text), c02cut(want), c02cut(got)))
 			}
 		}
@@ -246,10 +265,17 @@ func TestVerifBoundedRoundTrip(t *testing.T) {
 		fmt.Printf("BOUNDED-KNOWN %s %s\n", id, known[id])
 	}
 	fmt.Printf("BOUNDED evaluations=%d distinct=%d exhaustive=false bound=%q\n", evals, accepted,
-		fmt.Sprintf("%d source texts (%d accepted by the parser): examples/*.gr, tests/*.gr, every ordered pair of the 18 binary operators in three nestings, every prefix/binary combination, 18 operand forms (if/for/lambda/function/call/index/literal/parenthesised) on both sides of 11 operators and in index/call/prefix/condition positions, 35 statement shapes; normal and compact mode; structure compared by fully parenthesised compact print and by a reflection dump of the tree that does not use the printer", len(corpus), accepted))
+		fmt.Sprintf("%d source texts (%d accepted by the parser): examples/*.gr, tests/*.gr, every ordered pair of the 18 binary operators in three nestings, every prefix/binary combination, 18 operand forms (if/for/lambda/function/call/index/literal/parenthesised) on both sides of 11 operators and in index/call/prefix/condition positions, every ordered pair of 32 statement forms on consecutive lines (top level and in a function body), 35 statement shapes; normal and compact mode; structure compared by fully parenthesised compact print and by a reflection dump of the tree that does not use the printer", len(corpus), accepted))
 	if fails > 0 {
 		t.Fatalf("%d failures", fails)
 	}
+}
+
+// c02PrefixStatement: a generated adjacency whose second statement starts with a prefix - or -- (recorded finding: right
+// after a parenthesised expression statement or a comment the line break does not separate the statements).
+func c02PrefixStatement(src string) bool {
+	t := strings.TrimSuffix(strings.TrimSuffix(src, "\n"), "\n}")
+	return strings.HasSuffix(t, "\n-a") || strings.HasSuffix(t, "\n--x")
 }
 
 func TestVerifBoundedFixpoint(t *testing.T) {
@@ -260,7 +286,15 @@ func TestVerifBoundedFixpoint(t *testing.T) {
 	}
 	sort.Strings(names)
 	evals, fails, accepted := 0, 0, 0
+	knownMsg := ""
+	curSrc := ""
 	fail := func(msg string) {
+		if c02PrefixStatement(curSrc) {
+			if knownMsg == "" {
+				knownMsg = msg
+			}
+			return
+		}
 		fails++
 		if fails <= 6 {
 			fmt.Printf("BOUNDED-FAIL %s\n", msg)
@@ -270,6 +304,7 @@ func TestVerifBoundedFixpoint(t *testing.T) {
 	for round := 0; round < 2; round++ { // the second round runs after every other input was parsed and printed
 		for _, name := range names {
 			src := corpus[name]
+			curSrc = src
 			prog, errs := c02Parse(src)
 			if len(errs) > 0 {
 				continue
@@ -303,6 +338,10 @@ func TestVerifBoundedFixpoint(t *testing.T) {
 				}
 			}
 		}
+	}
+	curSrc = ""
+	if knownMsg != "" {
+		fmt.Printf("BOUNDED-KNOWN prefix-operator-statement %s\n", knownMsg)
 	}
 	// already-formatted texts come back unchanged whatever was parsed before (every spelling of a literal is kept)
 	for _, canon := range []string{"a = 31\n", "b = 0x1F\n", "c = 0b11111\n", "d = 3_1\n", "h = 0x1f3\n", "i = 499\n", "f = 1000003 + 1_000_003\n", "g = 1.5 + 1.50 + 15e-1\n", "s = \"caf\\xe9\"\n", "x = a + (b - c)\n"} {
